@@ -390,6 +390,29 @@ ADDENDA8 = {
     "C18": "; relabelled port of Sram-only modes; number conversion; documented bandwidths of the bundled configuration",
     "C19": "; shared quantisation records and numpy view rows (borrowed)",
 }
+ADDENDA11 = {
+    "C02": "; is_standard_fm condition on every use of the operator-derived storage shape",
+    "C03": "; cost / estimate table pairing in build_cascades; operand index agreement in create_feature_map calls; a PAD becomes a concatenation only with a single padded axis (finding F133)",
+    "C04": "; available_shram_banks interpreted on a grid",
+    "C05": "; set_address argument and early returns of the Greedy gap scan",
+    "C06": "; 40-bit emission form of the DMA registers (reviewed table)",
+    "C07": "; create_palette executed on the clang AST (qsort through the unit's comparator); ifm_block_depth initialiser evaluated",
+    "C08": "; direct offset bound (borrowed); inserted weight taps are the zero point (finding F136)",
+    "C09": "; default-only assignment of the bias type; vacuous comparison lint (expected count 0, matcher exercised); TOSA reciprocal numerator folded; int32 bias of average pool lowerings (finding F130)",
+    "C10": "; (width, height) getter unpackings package-wide",
+    "C11": "; reader / writer agreement on the identity of an Ethos-U operator (finding F137)",
+    "C12": "; expression and unit of the console's total-memory line",
+    "C13": "; rank typestate over the constraint registration order (finding F131); flattened receiver of byte views; per-axis guard before scalar use of scales in pre-check passes (finding F135)",
+    "C14": "; mutable default arguments (expected count 0, matcher exercised)",
+    "C15": "; operand stems of shape constructions; _ew_usage interpreted with unknown extra arguments; query / generator predicate agreement (finding F132)",
+    "C16": "; operand stems of loop variables (8 loops, no exception)",
+    "C17": "; dominance of the command-stream action over the return; object keys of the writer's tensor table",
+    "C18": "; walk order of the configuration file list; converters return the conversion of the given text or raise",
+    "C19": "; reviewed table of additions on caller-typed value operands; argument forwarding of finite_lut_value; saturation before quantise_scale in the softmax table; decisions on the real value of quantised constants (finding F134)",
+}
+for _pid, _t11 in ADDENDA11.items():
+    _tech, _text, _note, _ref = CLAIMS[_pid]
+    CLAIMS[_pid] = (_tech + _t11, _text, _note, _ref)
 ADDENDA10 = {
     "C02": "; operator-view comparison of the brick-format restriction (vacuous comparisons); memory-only predicate folded for Op.Memcpy; trailing rank cut of the per-format NHWC tables; one operand index per branch of the slice-read move",
     "C03": "; access-set coverage of IFM2 and LUT block dependency (borrowed); merge precedence when an optimised sub-schedule is adopted",
